@@ -1,5 +1,6 @@
 """C08 - Injection adds exactly one call and preserves the original pickle's behaviour."""
 import io
+import os
 import pickle
 import pickletools
 import _pickle
@@ -49,6 +50,9 @@ MODES.append(("insert_python", {"run_first": True, "replace": False, "callee": "
 MODES.append(("insert_python", {"run_first": True, "replace": False, "callee": "hit-twins"}))
 MODES.append(("insert_python", {"run_first": False, "replace": True, "callee": "hit-twins"}))
 MODES.append(("insert_python", {"run_first": False, "replace": False, "callee": "hit-noargs"}))
+for _first in (True, False):
+    for _repl in (False, True):
+        MODES.append(("cli", {"run_first": _first, "replace": _repl}))
 for _pop in (True, False):
     MODES.append(("append_python", {"pop": _pop, "callee": "eval"}))
     MODES.append(("append_python", {"pop": _pop, "callee": "hit"}))
@@ -288,8 +292,29 @@ def check(ctx, f, analysis, label, base, mode, opt):
         agg.count("base_not_interpretable_by_fickling")
         return
     try:
-        p = f.Pickled.load(base)
-        if opt.get("refused_first"):
+        if mode == "cli":
+            # the same injection through the command line (`fickling --inject CODE [--run-last] [--replace-result] FILE`)
+            from vp.props import c18
+            import fickling.cli as cli
+            path = os.path.join(ctx.scratch, "c08_cli_in.pkl")
+            with open(path, "wb") as fh:
+                fh.write(base)
+            argv = ["fickling", "--inject", INJ_SRC] + (["--run-last"] if not opt["run_first"] else []) + \
+                (["--replace-result"] if opt["replace"] else []) + [path]
+            try:
+                rc, outb, outt, err = c18.run_cli(cli, argv)
+            finally:
+                os.remove(path)
+            if rc != 0:
+                raise ValueError(f"CLI exit {rc}: {err[:100]}")
+            out = outb
+            inj_event, inj_glob, where = ("hit", ("INJ", 7), {}), ("builtins", "eval"), ("first" if opt["run_first"] else "last")
+            p = None
+        else:
+            p = f.Pickled.load(base)
+        if p is None:
+            pass
+        elif opt.get("refused_first"):
             # history: a helper call that is refused, then the valid injection on the same object
             try:
                 REFUSED[opt["refused_first"]](p)
@@ -297,8 +322,9 @@ def check(ctx, f, analysis, label, base, mode, opt):
                 return
             except Exception:
                 agg.count("refused_first_attempts")
-        inj_event, inj_glob, where = inject(f, p, mode, opt)
-        out = p.dumps()
+        if p is not None:
+            inj_event, inj_glob, where = inject(f, p, mode, opt)
+            out = p.dumps()
     except Exception as e:
         agg.hist("injection_refused", f"{mode}:{type(e).__name__}")
         return
@@ -355,7 +381,7 @@ def check(ctx, f, analysis, label, base, mode, opt):
                 what = "injected call is not at the prescribed position or has other arguments"
             agg.violation(k2, what + f": got {rlog!r} want {want_log!r}"[:400], w)
         # return value
-        keep = (mode == "insert_python" and not opt["replace"]) or (mode == "append_python" and opt["pop"]) \
+        keep = (mode in ("insert_python", "cli") and not opt["replace"]) or (mode == "append_python" and opt["pop"]) \
             or mode in ("insert_magic_int", "insert_fn")
         if keep:
             if not veq(rout[1], bout[1]):
@@ -373,7 +399,7 @@ def check(ctx, f, analysis, label, base, mode, opt):
             ok = nr[:len(nb)] == nb and set(extra) <= {("builtins", "exec"), ("builtins", "eval"), ("marshal", "loads")}
         elif inj_glob is None:
             ok = nr == nb
-        elif mode == "insert_python":
+        elif mode in ("insert_python", "cli"):
             ok = nr == [inj_glob] + nb
         else:
             ok = nr == nb + [inj_glob]
